@@ -449,6 +449,9 @@ def run_property(pid, tier, seed, scale=1.0):
         for fp_ in fprofs:
             scs += fault_variants(fp_, max(1, n // len(fprofs)), seed, per_q if tier == 'quick' else per_t, pid,
                                   P.get('fault_calls'))
+        for prof, xq, xt, xpq, xpt in P.get('fault_extra', []):
+            scs += fault_variants(prof, max(1, int((xq if tier == 'quick' else xt) * scale)), seed,
+                                  xpq if tier == 'quick' else xpt, pid, P.get('fault_calls'))
         assume.append('fault space = the library\'s own mkdir/makedirs/rename/cache-open/cache-write calls issued '
                       'before commit or rollback starts (C14 statement); one fault per execution')
     if P.get('thread_units'):
@@ -595,7 +598,7 @@ def selftest(with_mutants=True):
     if with_mutants:
         for d in sorted(glob.glob(os.path.join(runner.VERIF, 'seeded', '*'))):
             meta = json.load(open(os.path.join(d, 'meta.json')))
-            pid = meta['breaks_property']
+            pid = meta.get('breaks_property') or meta['property']
             wt = tempfile.mkdtemp(prefix='fbv_mut_', dir='/tmp')
             outd = tempfile.mkdtemp(prefix='fbv_mutout_', dir='/tmp')
             try:
